@@ -31,7 +31,9 @@ THEOREMS = "Props/C03.v"
 EXTRA_TARGETS = ("Traj/Encode.vo", "Gen/TrajFlow.vo")
 EXTS = ["_rmsd"]
 RULE = ("operation histories over {t[key] (int, negative int, slice incl. reversed/strided/clipped, index list/array, "
-        "bool mask), slice(copy=False), join / + / join(list) / md.join, stack, atom_slice(inplace F/T), remove_solvent, "
+        "bool mask), slice(copy=False), join / + / join(list) / md.join each with discard_overlapping_frames off and on "
+        "(a dedicated stream joins consecutive chunks of one run that share a frame: centred before or after the cut, "
+        "one or two seams, equal xyz with different time, two-frame overlaps, one-frame operands, empty operands), stack, atom_slice(inplace F/T), remove_solvent, "
         "center_coordinates(mass_weighted F/T), superpose, xyz/time/unitcell_* assignment (fresh or shared arrays)} on "
         "2-3 initial trajectories (2-6 frames, 3-5 atoms, with/without cell and explicit time); operands are drawn "
         "from all registers created so far; a case is non-trivial when it has >= 2 successful ops of >= 2 kinds; "
@@ -49,9 +51,12 @@ ASSUMPTIONS = ["coordinates are symbolic in the model: float rounding inside cen
                "'analysis and save functions leave their input bit-identical' is tested by hashing before/after a "
                "fixed list of public calls, not proved"]
 
-VARIANTS = [("fix", "fix"), ("cur", "fix"), ("fix", "cur"), ("cur", "cur")]     # (slice traces, atom_slice inplace)
+# model variants in the order Encode.run_all emits them: (slice indexes traces, atom_slice inplace resets, join keeps cache)
+NVAR = 8
 VNAME = {0: "repaired", 1: "slice_traces_unindexed", 2: "atom_slice_inplace_keeps_traces",
          3: "slice_traces_unindexed+atom_slice_inplace_keeps_traces"}
+for _i in range(4):
+    VNAME[4 + _i] = VNAME[_i] + "+join_hands_on_trimmed_cache"
 ERR = {0: "ok", 1: "IndexError", 2: "ValueError", 3: "TypeError", 9: "NoReg"}
 
 
@@ -448,9 +453,8 @@ def gen_history(rng, specs, length):
             if n + sum(sh.regs[o]["n"] for o in others) > 14:
                 continue
             chk = rng.random() < 0.7
-            op = ["join", r, others, chk]
-            if k == 1 and chk and rng.random() < 0.4:
-                op.append("plus")
+            dis = rng.random() < 0.35
+            op = ["join", r, others, chk, "plus" if (k == 1 and chk and not dis and rng.random() < 0.4) else None, dis]
             ops.append(op)
             ok = all(sh.na(o) == na and sh.regs[o]["cell"] == reg["cell"] and (not chk or sh.regs[o]["chains"] == reg["chains"])
                      for o in others)
@@ -461,7 +465,7 @@ def gen_history(rng, specs, length):
             rs_ = [r] + [rng.choice(cands) for _ in range(rng.randint(1, 2))]
             if sum(sh.regs[o]["n"] for o in rs_) > 14:
                 continue
-            ops.append(["mdjoin", rs_])
+            ops.append(["mdjoin", rs_, rng.random() < 0.4])
             sh.regs.append({"n": sum(sh.regs[o]["n"] for o in rs_), "chains": reg["chains"], "cell": reg["cell"]})
         elif kind == "stack":
             cands = [i for i in range(R) if sh.regs[i]["n"] == n] if rng.random() < 0.9 else list(range(R))
@@ -623,6 +627,66 @@ def exhaustive_histories(length):
         yield ops
 
 
+def overlap_history(rng, specs):
+    """joins with discard_overlapping_frames=True whose operands really overlap: consecutive chunks of one run that
+    share a frame (t[a:b+1], t[b:c]), with the run or the chunks centred before, the shared frame carrying a different
+    time stamp, chunks overlapping by two frames (no trimming: only last/first are compared), a chunk changed in place
+    after the cut (coordinates differ: no trimming), three chunks with two seams, the whole run appended again; the
+    joined result is then sliced / masked / centred so that a cache of the wrong length or offset shows"""
+    n = specs[0][0]
+    ops = []
+    R = len(specs)
+    if rng.random() < 0.75:
+        ops.append(["center", 0, rng.random() < 0.15])
+    b = rng.randint(1, n - 1) if n > 1 else 0
+    a = rng.randint(0, max(0, b - 1))
+    c = rng.randint(b + 1, n)
+    shape = rng.choice(["share1", "share1", "share1", "share2", "gap", "three", "single"])
+    if shape == "share2" and b + 2 <= n:
+        chunks = [[a, b + 2], [b, c]]
+    elif shape == "gap":
+        chunks = [[a, b], [b, c]]
+    elif shape == "three" and n >= 3:
+        b1 = rng.randint(1, n - 2)
+        b2 = rng.randint(b1 + 1, n - 1)
+        chunks = [[0, b1 + 1], [b1, b2 + 1], [b2, n]]
+    elif shape == "single":
+        chunks = [[b, b + 1], [b, c]]            # a one-frame operand that is trimmed away completely
+    else:
+        chunks = [[a, b + 1], [b, c]]
+    regs = []
+    for lo, hi in chunks:
+        ops.append(["slice", 0, ["slice", [lo, hi, None]], rng.random() < 0.85])
+        regs.append(R + len(regs))
+    w = rng.random()
+    if w < 0.2:
+        ops.append(["center", regs[rng.randrange(len(regs))], False])       # idempotent if the run was centred, a real change otherwise
+    elif w < 0.3:
+        ops.append(["set_time_new", regs[-1], chunks[-1][1] - chunks[-1][0]])   # equal xyz, different time
+    elif w < 0.4:
+        ops.append(["center", regs[0], True])
+    elif w < 0.5 and sum(len(ch) for ch in specs[0][1]) >= 3:
+        ops.append(["superpose", regs[0], regs[-1], 0])
+    how = rng.random()
+    if how < 0.45:
+        ops.append(["join", regs[0], regs[1:], rng.random() < 0.7, None, True])
+    elif how < 0.8:
+        ops.append(["mdjoin", regs, True])
+    else:
+        ops.append(["join", regs[0], regs[1:] + [0], True, None, True])          # ... and the whole run again
+    J = R + len(regs)
+    tail = rng.random()
+    if tail < 0.3:
+        ops.append(["slice", J, ["slice", [1, None, None]], True])
+    elif tail < 0.5:
+        ops.append(["slice", J, ["mask", [rng.random() < 0.6 for _ in range(12)]], True])    # wrong length -> IndexError in both
+    elif tail < 0.65:
+        ops.append(["center", J, False])
+    elif tail < 0.8:
+        ops.append(["join", J, [J], True, None, True])
+    return ops
+
+
 def fixed_probes():
     """the historical witnesses and a few structural probes, always run first"""
     s3 = [[5, [[1, 2, 100], [4]], True, True], [3, [[1, 2, 100], [4]], True, True], [5, [[8, 9, 10, 11]], False, False]]
@@ -651,6 +715,13 @@ def fixed_probes():
                    ["set_time_share", 2, 0]]))
     # superpose with a wrong atom count raises after centring in place
     P.append((s3, [["superpose", 0, 2, 0], ["superpose", 2, 0, -1], ["center", 0, True], ["superpose", 0, 1, 5]]))
+    # joins that trim an overlapping frame, operands centred before (cache of the result must be absent or right)
+    P.append((s3, [["center", 0, False], ["slice", 0, ["slice", [0, 3, None]], True], ["slice", 0, ["slice", [2, 5, None]], True],
+                   ["join", 3, [4], True, None, True], ["mdjoin", [3, 4, 0], True], ["join", 3, [4], True, None, False],
+                   ["slice", 5, ["mask", [True, False, True, True]], True]]))
+    P.append((s3, [["slice", 0, ["slice", [0, 2, None]], True], ["slice", 0, ["slice", [1, 4, None]], True], ["center", 3, False],
+                   ["center", 4, False], ["join", 3, [4], True, None, True], ["set_time_new", 4, 3], ["mdjoin", [3, 4], True],
+                   ["slice", 0, ["list", []], True], ["join", 0, [7], True, None, True], ["join", 7, [0], True, None, True]]))
     return [{"specs": s, "ops": o, "stream": "probe"} for s, o in P]
 
 
@@ -664,6 +735,10 @@ def build_cases(ctx):
         specs = gen_specs(rng)
         L = rng.randint(2, maxlen)
         cases.append({"specs": specs, "ops": gen_history(rng, specs, L), "stream": "random"})
+    for i in range(70 if quick else 700):
+        specs = gen_specs(rng)
+        specs[0][0] = rng.randint(3, 6)
+        cases.append({"specs": specs, "ops": overlap_history(rng, specs), "stream": "overlap-join"})
     for L in ([1, 2] if quick else [1, 2, 3]):
         for ops in exhaustive_histories(L):
             cases.append({"specs": EXH_SPECS, "ops": ops, "stream": "exhaustive%d" % L})
@@ -688,10 +763,10 @@ def coq_op(o):
     n = o[0]
     if n == "slice":
         return "OSlice %s %s %s" % (cnat(o[1]), coq_key(o[2]), cbool(o[3]))
-    if n == "join":
-        return "OJoin %s %s %s" % (cnat(o[1]), clist(o[2], cnat), cbool(o[3]))
-    if n == "mdjoin":
-        return "OMdJoin %s" % clist(o[1], cnat)
+    if n == "join":      # ["join", r, [others], check_topology, "plus" | "method" | None, discard_overlapping_frames]
+        return "OJoin %s %s %s %s" % (cnat(o[1]), clist(o[2], cnat), cbool(o[3]), cbool(len(o) > 5 and o[5]))
+    if n == "mdjoin":    # ["mdjoin", [registers], discard_overlapping_frames]
+        return "OMdJoin %s %s" % (clist(o[1], cnat), cbool(len(o) > 2 and o[2]))
     if n == "stack":
         return "OStack %s %s" % (cnat(o[1]), cnat(o[2]))
     if n == "atom_slice":
@@ -835,7 +910,7 @@ class Rd:
 def decode_all(xs):
     rd = Rd(xs)
     worlds = [rd.world()]
-    for _ in range(3):
+    for _ in range(NVAR - 1):
         worlds.append(rd.world() if rd.one() else None)
     if rd.i != len(xs):
         raise ValueError("trailing output")
@@ -1062,15 +1137,15 @@ def run_cases(ctx, cases, replaying=False):
             return compare(m, im)
         except (KeyError, IndexError, ValueError) as e:      # the model refers to data the run never produced
             return ["model output cannot be evaluated against the run: %s: %s" % (type(e).__name__, e)]
-    diffs = [[safe_compare(w[v], im) for v in range(4)] for w, im in zip(worlds, impl)]
+    diffs = [[safe_compare(w[v], im) for v in range(NVAR)] for w, im in zip(worlds, impl)]
     agree = None
-    for v in range(4):
+    for v in range(NVAR):
         if all(not d[v] for d in diffs):
             agree = v
             break
     ctx.notes.setdefault("coverage_extra", {})["model_variant_matching_impl"] = VNAME.get(agree)
     if agree is None:
-        best = min(range(4), key=lambda v: sum(bool(d[v]) for d in diffs))
+        best = min(range(NVAR), key=lambda v: sum(bool(d[v]) for d in diffs))
         bad = [i for i, d in enumerate(diffs) if d[best]]
         bad.sort(key=lambda i: len(cases[i]["ops"]))
         i = bad[0]
